@@ -11,12 +11,19 @@ name, psd_mesoporous called with every thickness / Kelvin model kind; the tabula
 Failing-input search: the property clauses on psd_mesoporous (isotherm entry point) with an independent SI-unit Kelvin equation and
 liquid-volume bookkeeping from the property set that is current AT THE TIME OF THE CALL, over sequences of analyses in one process
 that share adsorbate names, temperatures, data, material names and callable names.
+Boundary coincidence and near-coincident data (Props/C16/Boundary.lean): pressure limits EXACTLY equal to measured pressures (lower, upper,
+both, first / last point, neighbouring points, readings equal to the default limits 0.1 / 0.99) and consecutive readings 1e-12 … 1e-4
+relative apart (with and without uptake between them, the single step between two such readings) are generated on every entry point —
+the three raw functions (model arrays), psd_mesoporous (session) — and judged by the same clauses; `dist·Δw = V` is asserted entry by
+entry with the increments of the REPORTED widths (exact in floating point at any spacing) and with the independent widths under a
+tolerance that grows with the measured conditioning eps·(w_i + w_{i+1})/Δw_i of the increment; the ℚ models return their exact width
+increments so that the distribution is compared as `Δdist·Δw` against the volume scale at any spacing.
 """
 import math
 import sys
 from pathlib import Path
 
-from pgv.charlib import optq, parse_qlist, q, qlist, quiet_logging, tv_run
+from pgv.charlib import parse_qlist, q, qlist, quiet_logging, tv_run
 from pgv.core import SRC, import_pygaps
 from pgv.models import logu, relerr
 
@@ -50,6 +57,54 @@ def agree(a, b, tol=1e-9):
         return False
     scale = max([abs(float(x)) for x in b] + [1e-300])
     return all(abs(float(x) - float(y)) <= tol * max(scale, abs(float(y))) for x, y in zip(a, b))
+
+
+EPS = 2.220446049250313e-16
+COND = 32.0        # allowance for the rounding of the two widths whose difference is a width increment: COND * EPS * (|w_i| + |w_i+1|) / |dw_i|
+                   # (measured on the unchanged tree, seeds 1-8 + thorough: at most 0.72 in these units for the independent widths, 0.49 against the ℚ models)
+
+
+def cond_terms(full_widths):
+    """per interval: EPS * (|w_i| + |w_i+1|) / |w_i+1 - w_i| — the relative error a width increment inherits from one rounding of each width"""
+    w = [float(x) for x in full_widths]
+    return [EPS * (abs(a) + abs(b)) / max(abs(b - a), 1e-300) for a, b in zip(w[:-1], w[1:])]
+
+
+def dist_agree(code_dist, code_vols, model_dist, model_vols, model_widths, model_dw, tol, worst=None):
+    """distribution of the implementation against the exact distribution of a ℚ model, at any spacing of the widths:
+    (1) the old criterion (difference relative to the largest entry) with the conditioning allowance of the interval,
+    (2) the difference TIMES the exact width increment relative to the scale of the pore volumes (an interval next to a very
+        narrow one is not hidden behind the huge entry of the narrow one)."""
+    m = len(model_dist)
+    if not (len(code_dist) == m == len(model_dw) == len(model_widths)):
+        return False
+    full = [float(x) for x in model_widths] + [float(model_widths[-1] + model_dw[-1])] if m else []
+    cond = cond_terms(full)
+    dscale = max([abs(float(x)) for x in model_dist] + [1e-300])
+    vscale = max([abs(float(x)) for x in model_vols] + [abs(float(x)) for x in code_vols] + [1e-300])
+    for i in range(m):
+        d = abs(float(code_dist[i]) - float(model_dist[i]))
+        allow = tol + COND * cond[i]
+        if worst is not None and cond[i] > 1e-12:
+            worst[0] = max(worst[0], d * abs(float(model_dw[i])) / vscale / cond[i])
+        if not d <= allow * max(dscale, abs(float(model_dist[i]))):
+            return False
+        if not d * abs(float(model_dw[i])) <= allow * vscale:
+            return False
+    return True
+
+
+def qp(x):
+    """a pressure or pressure limit for the ℚ window models.  The models hold the default limits as the decimals 1/10 and 99/100 (as the
+    translator reads the literals), the implementation as the nearest doubles.  No double lies between a decimal and its nearest double, so
+    sending exactly these two doubles as their decimals keeps the order AND the ties of everything the window selection compares."""
+    if x is None:
+        return "~"
+    return "1/10" if x == 0.1 else "99/100" if x == 0.99 else q(x)
+
+
+def qplist(xs):
+    return "[" + ";".join(qp(x) for x in xs) + "]"
 
 
 def read_std_curve(fname):
@@ -166,6 +221,12 @@ def run(ck):
         tab = {float(p): float(v) for p, v in zip(ps, vals)}
         return lambda arr: np.array([tab[float(x)] for x in np.atleast_1d(arr)])
 
+    worst = {}
+
+    def note(k, v):
+        worst[k] = max(worst.get(k, 0.0), v)
+        return v
+
     for i in range(N):
         n = rng.choice([2, 3, 4, 6, 10, 16])
         ps = sorted({round(rng.uniform(0.05, 0.99), 6) for _ in range(n)})
@@ -175,7 +236,24 @@ def run(ck):
         zero_t = rng.random() < 0.3
         thick = [0.0] * n if zero_t else sorted(rng.uniform(0.2, 2.0) for _ in range(n))
         kel = sorted(rng.uniform(0.5, 20.0) for _ in range(n))
-        vol = sorted(rng.uniform(0, 1.0) for _ in range(n)) if rng.random() < 0.8 else [rng.uniform(0, 1) for _ in range(n)]
+        in_domain = rng.random() < 0.8
+        vol = sorted(rng.uniform(0, 1.0) for _ in range(n)) if in_domain else [rng.uniform(0, 1) for _ in range(n)]
+        # near-coincident readings: consecutive pressures / model values 1e-12 … 1e-4 relative apart, with and without uptake
+        # (and with and without a change of the layer thickness) between them
+        close = []
+        if rng.random() < 0.4:
+            for _ in range(rng.choice([1, 1, 2])):
+                j = rng.randrange(n - 1)
+                d = logu(rng, 1e-12, 1e-4)
+                pn, kn = ps[j] * (1 + d), kel[j] * (1 + d * rng.uniform(0.3, 3))
+                tn = thick[j] if zero_t or rng.random() < 0.3 else thick[j] * (1 + d * rng.uniform(0.1, 1))
+                if not (pn < 1 and (j + 2 >= n or (pn < ps[j + 2] and kn < kel[j + 2] and tn <= thick[j + 2]))):
+                    continue
+                ps[j + 1], kel[j + 1], thick[j + 1] = pn, kn, tn
+                if rng.random() < 0.4:
+                    vol[j + 1] = vol[j]                                         # no uptake between the two readings
+                close.append(j)
+            in_domain = in_domain and all(a < b for a, b in zip(ps[:-1], ps[1:])) and all(a < b for a, b in zip(kel[:-1], kel[1:]))
         method = rng.choice(["pygaps-DH", "pygaps-DH", "BJH", "DH"])
         geo = rng.choice(["slit", "cylinder", "sphere"]) if method == "pygaps-DH" else rng.choice(["cylinder", "cylinder", "slit"])
         fn = {"pygaps-DH": pm.psd_pygapsdh, "BJH": pm.psd_bjh, "DH": pm.psd_dollimore_heal}[method]
@@ -186,19 +264,44 @@ def run(ck):
             got = ("refused", None)
         lines.append(f"meso {method} {geo} {qlist(vol)} {qlist(thick)} {qlist(kel)}")
         plan.append(("meso", (method, geo, vol, thick, kel, got)))
-        ck.count(("rec", method, geo, n, zero_t, i), bucket=f"recurrence:{method}:{geo}:{'zero-t' if zero_t else 't>0'}",
+        ck.count(("rec", method, geo, n, zero_t, i), bucket=f"recurrence:{method}:{geo}:{'zero-t' if zero_t else 't>0'}" + (":close" if close else ""),
                  sample={"method": method, "geometry": geo, "n": n} if i % 60 == 0 else None)
+        # the property clauses on the raw function itself (an entry point of its own): the thickness / Kelvin models are the tables,
+        # so every width is known exactly and the clauses hold to rounding at ANY spacing of the readings
+        if got[0] != "ok" or not in_domain:
+            continue
+        sig = {"entry": "raw function", "method": method, "geometry": geo, "thickness": "zero thickness" if zero_t else "table"}
+        detail = {"volume_adsorbed": vol, "relative_pressure": ps, "thickness_at_the_pressures": thick, "kelvin_radius_at_the_pressures": kel,
+                  "closest_consecutive_pressures_relative": min(b / a - 1 for a, b in zip(ps[:-1], ps[1:]))}
+        widths, vols, dist = (np.asarray(r[k], dtype=float) for k in ("pore_widths", "pore_volumes", "pore_distribution"))
+        ck.count(("raw", method, geo, n, zero_t, bool(close), i), bucket=f"oracle:raw {method}:{geo}:{'zero-t' if zero_t else 't>0'}" + (":close" if close else ""))
+        w_full = [2 * (t + k) for t, k in zip(thick, kel)]
+        if not (len(widths) == len(vols) == len(dist) == n - 1):
+            ck.fail_case({**sig, "clause": "result arrays do not have one entry per pressure interval"}, {**detail, "lengths": [len(widths), len(vols), len(dist)]})
+            continue
+        if note("raw width", max(relerr(a, b) for a, b in zip(widths, w_full[:-1]))) > 1e-12:
+            ck.fail_case({**sig, "clause": "pore widths are not twice (Kelvin radius + thickness) at the measured pressures"}, {**detail, "got": widths[:6].tolist(), "expected": w_full[:6]})
+            continue
+        dwr = np.diff(np.asarray(w_full))
+        scale = max(float(np.max(np.abs(vols))), 1e-300)
+        bad = [j for j in range(n - 1) if not abs(dist[j] * dwr[j] - vols[j]) <= 1e-12 * abs(vols[j]) + 1e-300]
+        note("raw dist*dw-vol (per entry)", max(abs(dist[j] * dwr[j] - vols[j]) / max(abs(vols[j]), 1e-300) for j in range(n - 1)))
+        if bad:
+            j = bad[0]
+            ck.fail_case({**sig, "clause": "distribution times width increments differs from the pore volumes"},
+                         {**detail, "interval": j, "width_increment": float(dwr[j]), "distribution": float(dist[j]), "product": float(dist[j] * dwr[j]), "pore_volume": float(vols[j])})
+        if zero_t:
+            dv = np.diff(np.asarray(vol))
+            if note("raw zero-t volumes", float(np.max(np.abs(vols - dv))) / max(float(np.max(np.abs(dv))), 1e-300)) > 1e-9:
+                ck.fail_case({**sig, "clause": "zero thickness: pore volumes are not the successive changes of adsorbed liquid volume"}, {**detail, "got": vols[:6].tolist(), "expected": dv[:6].tolist()})
+            if abs(float(np.sum(vols)) - (vol[-1] - vol[0])) > 1e-9 * max(abs(vol[-1] - vol[0]), scale):
+                ck.fail_case({**sig, "clause": "zero thickness: pore volumes do not sum to the total change"}, {**detail, "sum": float(np.sum(vols)), "expected": vol[-1] - vol[0]})
 
     # ------------------------------------------------------------------ 3. property oracle on psd_mesoporous (isotherm entry point), as ONE session
     # Every analysis must satisfy the property's equations for the property set / thickness model / Kelvin model / data that are current
     # at the time of the call, whatever was analysed before under the same names.
     from pygaps.core.adsorbate import Adsorbate
     from pygaps.data import ADSORBATE_LIST
-    worst = {}
-
-    def note(k, v):
-        worst[k] = max(worst.get(k, 0.0), v)
-        return v
 
     objs = []            # model object id -> {"obj": Adsorbate, "name", "props": my own record of its current property set, "log": what happened to it}
     registered = {}      # user name -> object id of the instance that is in ADSORBATE_LIST (first of that name)
@@ -261,18 +364,65 @@ def run(ck):
 
     def gen_data():
         n = rng.choice([6, 10, 20, 40, 80])
-        ps = sorted({rng.uniform(0.02, 0.995) for _ in range(n)} | ({1 - logu(rng, 1e-6, 4e-3)} if rng.random() < 0.3 else set()))
+        base = {rng.uniform(0.02, 0.995) for _ in range(n)} | ({1 - logu(rng, 1e-6, 4e-3)} if rng.random() < 0.3 else set())
+        if rng.random() < 0.25:
+            base |= set(rng.choice([[0.1], [0.99], [0.1, 0.99]]))               # readings exactly ON the default limits
+        ps = sorted(base)
+        # near-coincident readings: a reading repeated 1e-12 … 1e-4 relative above itself (pairs, sometimes a cluster of three)
+        close = set()
+        if rng.random() < 0.4:
+            for _ in range(rng.choice([1, 1, 2, 3])):
+                j = rng.randrange(len(ps))
+                for _ in range(rng.choice([1, 1, 1, 2])):
+                    pn = ps[j] * (1 + logu(rng, 1e-12, 1e-4))
+                    if pn >= 0.9999995 or pn in ps or (j + 1 < len(ps) and pn >= ps[j + 1]):
+                        break
+                    ps.insert(j + 1, pn)
+                    close = {c + 1 if c > j else c for c in close} | {j}
+                    j += 1
         n = len(ps)
         step_case = rng.random() < 0.25
         j0 = None
         if step_case:
             j0 = rng.randrange(1, n - 1)
+            if close and rng.random() < 0.6:
+                j0 = rng.choice(sorted(close))                                   # the whole condensation step between two near-coincident readings
+                j0 = min(max(j0, 0), n - 2)
             base, jump = rng.uniform(0.5, 5), rng.uniform(1, 20)
             load = [base if j <= j0 else base + jump for j in range(n)]
         else:
             inc = [rng.uniform(0, 1) ** 3 * rng.uniform(0.01, 3) for _ in range(n)]
+            for c in close:
+                if rng.random() < 0.4:
+                    inc[c + 1] = 0.0                                            # no uptake between the two readings
             load = list(np.cumsum(inc) + rng.uniform(0, 2))
-        return {"ps": ps, "load": [float(x) for x in load], "branch": rng.choice(["ads", "des"]), "step_case": step_case, "j0": j0}
+        return {"ps": ps, "load": [float(x) for x in load], "branch": rng.choice(["ads", "des"]), "step_case": step_case, "j0": j0, "close": sorted(close)}
+
+    def gen_limits(ps):
+        """p_limits: None (defaults), free values, and values EXACTLY equal to measured pressures (lower, upper, both, first / last point,
+        neighbouring points, twice the same point)"""
+        n = len(ps)
+        if rng.random() < 0.35:
+            return None, ""
+        free_lo = lambda: rng.choice([None, 0, rng.uniform(0.02, 0.5)])      # noqa
+        free_hi = lambda: rng.choice([None, rng.uniform(0.5, 0.999)])        # noqa
+        if rng.random() < 0.5:
+            return (free_lo(), free_hi()), ""
+        mode = rng.choice(["upper", "upper", "lower", "both", "both", "neighbours", "last", "first", "same"])
+        i, j = sorted((rng.randrange(n), rng.randrange(n)))
+        if mode == "upper":
+            return (free_lo(), ps[max(j, min(3, n - 1))]), "upper limit on a reading"
+        if mode == "lower":
+            return (ps[min(i, max(0, n - 3))], free_hi()), "lower limit on a reading"
+        if mode == "both":
+            return (ps[i], ps[j]), "both limits on readings"
+        if mode == "neighbours":
+            return (ps[i], ps[min(i + rng.choice([1, 2, 3, 4]), n - 1)]), "limits on neighbouring readings"
+        if mode == "last":
+            return (rng.choice([None, 0, ps[0], ps[min(i, max(0, n - 4))], rng.uniform(0.02, 0.5)]), ps[-1]), "upper limit on the last reading"
+        if mode == "first":
+            return (ps[0], rng.choice([None, ps[-1], ps[j], rng.uniform(0.5, 0.999)])), "lower limit on the first reading"
+        return (ps[i], ps[i]), "both limits on the same reading"
 
     def build_iso(ads_name, T, data, basis, M):
         n = len(data["ps"])
@@ -354,7 +504,7 @@ def run(ck):
                 continue
             if kind == "user":
                 held = next((j for j, rec in enumerate(objs) if rec["obj"] is iso.adsorbate), None)
-                slines.append(f"iso {ads_name} {q(T)} {basis} {qlist(ps)} {qlist([x * M for x in load] if basis == 'mass' else load)}")
+                slines.append(f"iso {ads_name} {q(T)} {basis} {qplist(ps)} {qlist([x * M for x in load] if basis == 'mass' else load)}")
                 splan.append(("done", held))
                 iso_idx = n_iso_model[0]
                 n_iso_model[0] += 1
@@ -394,20 +544,30 @@ def run(ck):
         else:
             kname, karg, kfun = "Kelvin", "Kelvin", (lambda p: kelvin_si(p, FACTOR[mg], T, rho, M, gamma))
             kdesc = {}
-        lim = None if rng.random() < 0.4 else (rng.choice([None, 0, rng.uniform(0.02, 0.5)]), rng.choice([None, rng.uniform(0.5, 0.999)]))
+        lim, tie = gen_limits(ps)
+        if lim is None and (0.1 in ps or 0.99 in ps):
+            tie = "default limits on readings"
+        close = data.get("close", [])
         sig = {"method": method, "geometry": geo, "thickness": tname}
         if kname != "Kelvin":
             sig["kelvin_model"] = kname
         if kind == "user":
             sig["adsorbate"] = "user-defined"
-        ck.count(("psd", method, geo, men, tname, kname, branch, n, i), bucket=f"oracle:{method}:{geo}:{tname}:{branch}" + (":step" if step_case else "") + ("" if kname == "Kelvin" else ":" + kname),
+        ck.count(("psd", method, geo, men, tname, kname, branch, n, i), bucket=f"oracle:{method}:{geo}:{tname}:{branch}" + (":step" if step_case else "") + ("" if kname == "Kelvin" else ":" + kname) + (":close" if close else "") + (":tie" if tie else ""),
                  sample={"method": method, "geometry": geo, "meniscus": men, "thickness": tname, "kelvin": kname, "branch": branch, "n": n, "limits": lim, "adsorbate": kind} if i % 40 == 0 else None)
         lo, hi = (0.1, 0.99) if lim is None else lim
         sel_strict = [j for j, p in enumerate(ps) if (not lo or p > lo) and (not hi or p < hi)]
         sel_loose = [j for j, p in enumerate(ps) if (not lo or p >= lo) and (not hi or p <= hi)]
-        model_ok = kind == "user" and kname != "user callable" and n <= 40 and i % 2 == 0
+        if tie:
+            ck.count(("tie", tie, i), nontrivial=False, bucket="limits:" + tie)
+        model_ok = kind == "user" and kname != "user callable" and n <= 40 and (i % 2 == 0 or bool(tie) or bool(close))
+        win_line = f"win meso {'N' if lim is None else 'L'} {qp(None if lim is None else lim[0])} {qp(None if lim is None else lim[1])} {qplist(ps)} []"
         detail = {"adsorbate": ads_name, "T": T, "pressure": ps, "loading_mmol_g_when_the_isotherm_was_built": load, "loading_basis_of_the_isotherm": basis, "amounts_held_by_the_isotherm": stored, "branch": branch, "meniscus": men, "limits": lim,
                   "kelvin_model": kname, "session_step": i, "what_happened_before_this_call": action, **tdesc, **kdesc}
+        if tie:
+            detail["limits_coincide_with_readings"] = tie
+        if close:
+            detail["near_coincident_readings"] = [{"index": c, "pressures": [ps[c], ps[c + 1]], "relative_distance": ps[c + 1] / ps[c] - 1, "loadings": [load[c], load[c + 1]]} for c in close[:4]]
         if kind == "user":
             detail["adsorbate_properties_now"] = dict(objs[oid]["props"])
             detail["history_of_this_adsorbate_name_in_the_process"] = [{"event": e, "properties": p_} for e, p_ in name_log[ads_name][-6:]]
@@ -416,16 +576,20 @@ def run(ck):
             thick_arr = [tfun(p) for p in ps]
             lnp = [float(np.log(p)) for p in ps]
             return (f"analyse {iso_idx} {method} {geo} {q(FACTOR[mg])} {'J' if kname == 'Kelvin-KJS' else 'K'} {'N' if lim is None else 'L'} "
-                    f"{optq(None if lim is None else lim[0])} {optq(None if lim is None else lim[1])} {qlist(thick_arr)} {qlist(lnp)}")
+                    f"{qp(None if lim is None else lim[0])} {qp(None if lim is None else lim[1])} {qlist(thick_arr)} {qlist(lnp)}")
 
         try:
             r = pgc.psd_mesoporous(iso, psd_model=method, pore_geometry=geo, meniscus_geometry=men, branch=branch, thickness_model=targ, kelvin_model=karg, p_limits=lim)
         except CalculationError:
             if len(sel_strict) >= 3:
                 ck.fail_case({**sig, "clause": "refused although three or more points lie strictly inside the limits"}, detail)
-            elif model_ok:
-                slines.append(model_line())
-                splan.append(("refused", None))
+            else:
+                if model_ok:
+                    slines.append(model_line())
+                    splan.append(("refused", None))
+                if tie:
+                    lines.append(win_line)                                      # the window convention at ties: the model refuses as well
+                    plan.append(("win", None))
             continue
         except Exception as e:  # noqa
             ck.fail_case({**sig, "clause": "psd_mesoporous raises a non-pyGAPS error", "error": type(e).__name__}, {**detail, "error": repr(e)[:200]})
@@ -452,13 +616,32 @@ def run(ck):
             ck.fail_case({**sig, "clause": "pore widths are not twice (Kelvin radius + thickness) at the measured pressures", "meniscus": mg}, {**detail, "got": widths[:5].tolist(), "expected": w_exp[:5]})
         if np.any(np.diff(widths) <= 0):
             ck.fail_case({**sig, "clause": "pore widths do not increase with pressure"}, {**detail, "widths": widths.tolist()[:10]})
-        # distribution * width increments = volumes
+        # distribution * width increments = volumes, entry by entry, at any spacing of the readings:
+        # (a) with the increments of the REPORTED widths (all intervals but the last: the top width is not reported).  The subtraction of
+        #     two neighbouring floating-point widths is the one the implementation performs, so this holds to rounding however close they are;
         dw = np.diff(np.asarray(w_exp))
         scale = max(np.max(np.abs(vols)), 1e-300)
-        e = float(np.max(np.abs(dist * dw - vols)) / scale)
-        note("dist*dw-vol", e)
-        if e > 1e-6:
-            ck.fail_case({**sig, "clause": "distribution times width increments differs from the pore volumes"}, {**detail, "worst": e})
+        dwr = np.diff(widths)
+        if m > 1:
+            note("dist*dw-vol (reported widths, per entry)", max(abs(dist[j] * dwr[j] - vols[j]) / max(abs(vols[j]), 1e-300) for j in range(m - 1)))
+            bad = [j for j in range(m - 1) if not abs(dist[j] * dwr[j] - vols[j]) <= 1e-12 * abs(vols[j]) + 1e-300]
+            if bad:
+                j = bad[0]
+                ck.fail_case({**sig, "clause": "distribution times width increments differs from the pore volumes"},
+                             {**detail, "interval": j, "pressures_of_the_interval": [pu[j], pu[j + 1]], "reported_widths": [float(widths[j]), float(widths[j + 1])],
+                              "width_increment": float(dwr[j]), "distribution": float(dist[j]), "product": float(dist[j] * dwr[j]), "pore_volume": float(vols[j])})
+        # (b) with the independent widths 2 (r_K + t): relative to the volume scale, the tolerance grows with the conditioning of each increment
+        cond = cond_terms(w_exp)
+        errs = np.abs(dist * dw - vols) / scale
+        e = float(np.max(errs))
+        note("dist*dw-vol", max((float(x) for x, c in zip(errs, cond) if c <= 1e-12), default=0.0))       # the well-conditioned intervals: as before
+        note("dist*dw-vol in units of eps (w_i + w_i+1) / dw_i", max((float(x) / c for x, c in zip(errs, cond) if c > 1e-12), default=0.0))
+        bad = [j for j in range(m) if not errs[j] <= 1e-6 + COND * cond[j]]
+        if bad:
+            j = bad[0]
+            ck.fail_case({**sig, "clause": "distribution times width increments differs from the pore volumes"},
+                         {**detail, "worst": e, "interval": j, "pressures_of_the_interval": [pu[j], pu[j + 1]], "expected_widths": [w_exp[j], w_exp[j + 1]],
+                          "distribution": float(dist[j]), "product": float(dist[j] * dw[j]), "pore_volume": float(vols[j])})
         # cumulative curve ends at the volume adsorbed at the highest pressure used, and is the running sum
         e = relerr(cum[-1], vliq[-1])
         note("cum-end", e)
@@ -481,14 +664,19 @@ def run(ck):
                     ck.fail_case({**sig, "clause": "single condensation step does not give a single peak"}, {**detail, "nonzero": nz, "expected": [k]})
                 elif not (w_exp[k] * (1 - 1e-9) <= widths[k] <= w_exp[k + 1] * (1 + 1e-9)):
                     ck.fail_case({**sig, "clause": "single peak is not at the Kelvin-predicted width"}, {**detail, "width": float(widths[k]), "bracket": [w_exp[k], w_exp[k + 1]]})
+                # … and the DISTRIBUTION has its only non-zero entry there (the step may lie between two near-coincident readings)
+                nzd = [j for j in range(m) if abs(dist[j] * dw[j]) > 1e-12 * scale]
+                if nzd != [k] or int(np.argmax(dist)) != k:
+                    ck.fail_case({**sig, "clause": "single condensation step does not give a single peak of the distribution"},
+                                 {**detail, "nonzero_entries_of_the_distribution": nzd, "largest_entry": int(np.argmax(dist)), "expected": [k], "distribution_there": float(dist[k])})
         # the wrapper against the ℚ model on the same arrays (correspondence of the whole pipeline)
-        if i % 3 == 0 and m <= 40 and kname == "Kelvin":
+        if (i % 3 == 0 or bool(close)) and m <= 40 and kname == "Kelvin":
             thick_arr = [tfun(p) for p in pu]
             kel_arr = [float(x) for x in mk.kelvin_radius(np.array(pu), mg, T, rho, M, gamma)]
             lines.append(f"meso {method} {geo} {qlist(vliq)} {qlist(thick_arr)} {qlist(kel_arr)}")
             plan.append(("wrapper", (method, geo, r)))
-        if i % 2 == 0:
-            lines.append(f"win meso {'N' if lim is None else 'L'} {optq(None if lim is None else lim[0])} {optq(None if lim is None else lim[1])} {qlist(ps)} []")
+        if i % 2 == 0 or tie:
+            lines.append(win_line)
             plan.append(("win", (a, b)))
         # the session model: the same call on the model's heap / registry / isotherm (property set looked up by the model itself)
         if model_ok:
@@ -497,6 +685,7 @@ def run(ck):
 
     # ------------------------------------------------------------------ correspondence replies
     n_dis = 0
+    wq = [0.0]     # worst difference of the distribution against the ℚ models, times the exact increment, in units of eps (w_i + w_i+1) / dw_i
     try:
         replies = ck.drive("Char", lines) if lines else []
     except Exception as e:
@@ -512,7 +701,7 @@ def run(ck):
             elif what == "gf":
                 ok = t[0] == "ok" and float(parse_qlist("[" + t[1] + "]")[0]) == FACTOR[line.split()[1]]
             elif what == "win":
-                ok = t[0] == "ok" and (int(t[1]), int(t[2])) == data
+                ok = (t == ["refused"]) if data is None else (t[0] == "ok" and (int(t[1]), int(t[2])) == data)
             elif what == "meso":
                 method, geo, vol, thick, kel, got = data
                 if got[0] == "refused":
@@ -520,16 +709,19 @@ def run(ck):
                 elif t[0] != "ok":
                     ok = False
                 else:
-                    arrs = [parse_qlist(x) for x in t[1:6]]
+                    arrs = [parse_qlist(x) for x in t[1:7]]
                     r = got[1]
-                    ok = all(agree(np.asarray(r[k], dtype=float), arr, 1e-7) for k, arr in zip(("pore_widths", "pore_areas", "pore_volumes", "pore_distribution"), arrs) if np.all(np.isfinite(np.asarray(r[k], dtype=float))))
+                    ok = all(agree(np.asarray(r[k], dtype=float), arr, 1e-7) for k, arr in zip(("pore_widths", "pore_areas", "pore_volumes"), arrs) if np.all(np.isfinite(np.asarray(r[k], dtype=float))))
+                    if ok and np.all(np.isfinite(np.asarray(r["pore_distribution"], dtype=float))):
+                        ok = dist_agree(r["pore_distribution"], r["pore_volumes"], arrs[3], arrs[2], arrs[0], arrs[5], 1e-7, wq)
             elif what == "wrapper":
                 method, geo, r = data
                 if t[0] != "ok":
                     ok = False
                 else:
-                    arrs = [parse_qlist(x) for x in t[1:6]]
-                    ok = all(agree(np.asarray(r[k], dtype=float), arr, 1e-6) for k, arr in zip(("pore_widths", "pore_areas", "pore_volumes", "pore_distribution", "pore_volume_cumulative"), arrs))
+                    arrs = [parse_qlist(x) for x in t[1:7]]
+                    ok = (all(agree(np.asarray(r[k], dtype=float), arrs[j], 1e-6) for j, k in ((0, "pore_widths"), (1, "pore_areas"), (2, "pore_volumes"), (4, "pore_volume_cumulative")))
+                          and dist_agree(r["pore_distribution"], r["pore_volumes"], arrs[3], arrs[2], arrs[0], arrs[5], 1e-6, wq))
             if not ok:
                 n_dis += 1
                 if n_dis <= 3:
@@ -557,20 +749,24 @@ def run(ck):
                 if t[0] != "ok":
                     ok = False
                 else:
-                    arrs = [parse_qlist(x) for x in t[1:6]]
-                    ok = (int(t[6]), int(t[7])) == (a, b) and all(
-                        agree(np.asarray(r[k], dtype=float), arr, 1e-6) for k, arr in zip(("pore_widths", "pore_areas", "pore_volumes", "pore_distribution", "pore_volume_cumulative"), arrs))
+                    arrs = [parse_qlist(x) for x in t[1:6]] + [parse_qlist(t[8])]
+                    ok = ((int(t[6]), int(t[7])) == (a, b)
+                          and all(agree(np.asarray(r[k], dtype=float), arrs[j], 1e-6) for j, k in ((0, "pore_widths"), (1, "pore_areas"), (2, "pore_volumes"), (4, "pore_volume_cumulative")))
+                          and dist_agree(r["pore_distribution"], r["pore_volumes"], arrs[3], arrs[2], arrs[0], arrs[5], 1e-6, wq))
             if not ok:
                 n_sdis += 1
                 if n_sdis <= 3:
                     ck.broken.append({"step": f"correspondence Model/MesoSession.lean ({what})", "what": {"request": line[:300], "model": rep[:300], "implementation": str(data)[:300]}})
     ck.cov["correspondence_disagreements"] = n_dis + n_sdis
     ck.cov["session"] = {"adsorbate_objects_created": len(objs), "isotherms_in_model": n_iso_model[0], "kept_isotherms": len(kept), "driver_lines": len(slines)}
+    worst["distribution vs the ℚ models in units of eps (w_i + w_i+1) / dw_i"] = wq[0]
     ck.cov["worst_relative_errors"] = {k: float(f"{v:.3g}") for k, v in sorted(worst.items())}
-    ck.cov["rule"] = ("ONE interpreter session of analyses: random strictly increasing relative-pressure grids (6-80 points) with non-decreasing loading incl. single-step isotherms (data re-used between consecutive "
+    ck.cov["rule"] = ("ONE interpreter session of analyses: random strictly increasing relative-pressure grids (6-80 points; readings exactly on the default limits; consecutive readings 1e-12 … 1e-4 relative "
+                      "apart with and without uptake between them) with non-decreasing loading incl. single-step isotherms (the step also between two near-coincident readings; data re-used between consecutive "
                       "analyses), N2/Ar/CO2 and user-defined adsorbate property sets under two shared names (created, re-registered under the same name, edited in place, second object of the same name, "
                       "isotherms kept and re-analysed after their adsorbate changed; molar and mass loading bases; shared temperatures and material names), 3 methods x admissible pore geometries x "
                       "explicit or inferred meniscus geometry x zero / Halsey / Harkins-Jura / the two tabulated standard curves / user thickness callables (same __name__) x Kelvin / Kelvin-KJS / user Kelvin "
-                      "callables (same __name__), ads and des branches, any pressure limits; recurrences also on 2-16 point arrays with arbitrary model arrays; tabulated curves against the data files")
+                      "callables (same __name__), ads and des branches, any pressure limits incl. limits EXACTLY on readings (lower, upper, both, first / last, neighbouring readings, the same reading twice); "
+                      "recurrences also on 2-16 point arrays with arbitrary model arrays incl. near-coincident values, with the property clauses on the raw functions; tabulated curves against the data files")
     ck.assumptions += ["CoolProp liquid density / surface tension of the built-in adsorbates are inputs",
                        "user-defined property sets are self-consistent (liquid_molar_density = liquid_density / molar_mass)"]
